@@ -17,7 +17,7 @@ RULE = ('ISMRMRD files written by the harness: 2D/3D label layouts (k1 1..4, k2 
         'interleaved noise / calibration / other-coil readouts; acquisition order: all permutations when <= 5 readouts, random permutations otherwise; '
         'trajectory sources: Cartesian / radial calculators, stored trajectories, user trajectory. Every readout carries its identity in data, '
         'header fields and stored trajectory. Loaded positions compared with the Lean model (stable lexsort on the generated label order, '
-        'generated filter mask) and with the index-derived expectation. distinct = distinct layout key')
+        'generated filter mask) and with the index-derived expectation. RPE / radial per-readout formulas with label offsets; KNoise.from_file; Pulseq: stub sequences with different extents and encoding sizes per direction (Cartesian steps in any order, generic positions, unencoded / numerically zero directions) against M.pulseqTraj and the step oracle. distinct = distinct layout key')
 ASSUMPTIONS = ['ismrmrd / h5py I/O is trusted', 'pypulseq trajectory calculation is a parameter: only the rescaling glue is checked (separate cases)']
 OTHER = ['average', 'slice', 'contrast', 'phase', 'repetition', 'set', 'user0', 'user4', 'user7']
 
